@@ -179,6 +179,11 @@ def enc_pairs(l, den):
     return " ".join([str(len(l))] + [f"{num(iv[0], den)} {num(iv[1], den)}" for iv in l])
 
 
+def enc_keep(c, den):
+    """the keep list is optional in the model: None (or absent) is 'no list', [] is 'keep nothing'"""
+    return "N" if c.get("keep") is None else enc_pairs(c["keep"], den)
+
+
 def pysorted_pairs(l):
     return sorted((iv[0], iv[1]) for iv in l)
 
@@ -209,7 +214,7 @@ def has_model(c):
             return False
         if c["gen"] == "sil":
             k, d = lists_of(c)
-            pairs = candidate_gaps(k, 0.0, D) if k else [(iv[0], iv[1]) for iv in d]
+            pairs = [(iv[0], iv[1]) for iv in d] if d else (candidate_gaps(k, 0.0, D) if c.get("keep") is not None else [])
             if not all(diff_ok(s, e, rate) for s, e in pairs):
                 return False
         return True
@@ -223,8 +228,6 @@ def has_model(c):
         es = split_entries(c)
         if not all(time_ok(e[0], c["rate"]) and time_ok(e[1], c["rate"]) for e in es):
             return False
-        if "%" in c["stem"] and c["style"] in (None, "append"):
-            return False                          # the name template is a %-format string (finding C17-5): oracle only
         names = [out_name(c, i, e[2], len(es)) for i, e in enumerate(es)]
         if len(set(names)) != len(names):         # overwritten files: oracle only
             return False
@@ -268,12 +271,12 @@ def encode(c, enc):
     if op == "marked":
         k, d = lists_of(c)
         den = common_den(all_times(c) + [c["start"], c["stop"]])
-        return f"x_marked {num(c['start'], den)} {num(c['stop'], den)} {enc_pairs(k, den)} {enc_pairs(d, den)}"
+        return f"x_marked {num(c['start'], den)} {num(c['stop'], den)} {enc_keep(c, den)} {enc_pairs(d, den)}"
     if op == "times":
         k, d = lists_of(c)
         D = fdur(c)
         den = common_den(all_times(c) + [D])
-        return (f"x_times {den} {c['w']} {c['rate']} {hx(c['hex'])} {num(D, den)} {enc_pairs(k, den)} {enc_pairs(d, den)} "
+        return (f"x_times {den} {c['w']} {c['rate']} {hx(c['hex'])} {num(D, den)} {enc_keep(c, den)} {enc_pairs(d, den)} "
                 + ("sil" if c["gen"] == "sil" else "N"))
     if op == "silence":
         den = common_den([c["d"]])
@@ -855,10 +858,10 @@ def split_case(w, rate, n, words, others=(), **kw):
 
 def corpus():
     base = {"op": "times", "w": 1, "rate": 8, "hex": ramp(40, 1), "gen": None}
-    # C17-2: an explicit empty keep list returns the whole recording
+    # C17-2 (fixed, 25e3c22): an explicit empty keep list returned the whole recording
     yield dict(base, keep=[])
     yield dict(base, keep=[], gen="sil")
-    # C17-1: a negative time is accepted (delete list: silently; keep list: when the start rounds to sample 0)
+    # C17-1 (fixed, 2609506): a negative time was accepted (delete list: silently; keep list: when the start rounded to sample 0)
     yield dict(base, **{"del": [[-1.0, 2.0]]})
     yield dict(base, **{"del": [[-1.0, 2.0]]}, gen="sil")
     yield dict(base, keep=[[-0.01, 2.0]])
@@ -901,11 +904,11 @@ def corpus():
     yield split_case(1, 8, 40, words, others, tgflag="phones")
     yield split_case(1, 8, 40, words, others, style="label")                         # C17-3: overwritten files
     yield split_case(1, 8, 40, words, others, style="append_no_i", tgflag=True)      # C17-3
-    yield split_case(1, 8, 40, [], others)                                           # C17-4: no entry
-    yield split_case(1, 8, 40, words[:1], others, silence="a")                       # C17-4: only silence
+    yield split_case(1, 8, 40, [], others)                                           # C17-4 (fixed, 5e608f3): no entry -> ValueError
+    yield split_case(1, 8, 40, words[:1], others, silence="a")                       # C17-4 (fixed): only silence
     yield split_case(1, 8, 40, [[i * 0.5, i * 0.5 + 0.5, f"l{i}"] for i in range(10)], [], style="append")
-    yield split_case(1, 8, 40, words[:2], others, stem="my%20file")                  # C17-5: '%' in the wav's file name
-    yield split_case(1, 8, 40, words[:2], others, stem="100%", style="append")       # C17-5
+    yield split_case(1, 8, 40, words[:2], others, stem="my%20file")                  # C17-5 (fixed, 8fb03b8): '%' in the wav's file name
+    yield split_case(1, 8, 40, words[:2], others, stem="100%", style="append")       # C17-5 (fixed)
     yield split_case(1, 8, 40, words[:2], others, stem="my%20file", style="label", tgflag=True)
 
 
